@@ -32,12 +32,16 @@ inductive Fn
   | add (k : Nat)                 -- x ↦ x + k
   | throwAlways (e : Nat)         -- throws e
   | throwIfEq (c e k : Nat)       -- x = c ? throw e : x + k
+  | const (k : Nat)               -- x ↦ k   (also: a callable returning void, followed by the harness's "then k")
+  | constThrowIfEq (c e k : Nat)  -- x = c ? throw e : k
   deriving DecidableEq, Repr
 
 def Fn.app : Fn → Nat → Outcome
   | .add k, x => .value (x + k)
   | .throwAlways e, _ => .error e
   | .throwIfEq c e k, x => if x = c then .error e else .value (x + k)
+  | .const k, _ => .value k
+  | .constThrowIfEq c e k, x => if x = c then .error e else .value k
 
 inductive StopReact | ignore | completeDone
   deriving DecidableEq, Repr
@@ -48,7 +52,7 @@ inductive LeafSpec
   deriving DecidableEq, Repr
 
 inductive UnKind
-  | thenF (f : Fn) | uponError (f : Fn) | uponDone (v : Nat)
+  | thenF (f : Fn) | uponError (f : Fn) | uponDone (f : Fn)   -- upon_done's callable takes no argument: scripted as f applied to 0
   | matDemat | doneAsOpt (d : Nat) | unstoppable | withTag (q : Nat) | withSrc | erase
   | intoVariant | deferK | allocate
   deriving DecidableEq, Repr
@@ -155,7 +159,7 @@ def UnKind.map (k : UnKind) (o : Outcome) : Outcome :=
   match k, o with
   | .thenF f, .value v => f.app v
   | .uponError f, .error e => f.app e
-  | .uponDone v, .done => .value v
+  | .uponDone f, .done => f.app 0
   | .doneAsOpt d, .done => .value d
   | _, o => o
 
